@@ -5,6 +5,8 @@ Nothing in here decides what is right or wrong: the expected values come from TL
 """
 import copy
 import os
+import resource
+import signal
 import sys
 from io import StringIO
 
@@ -20,6 +22,98 @@ import pyx12.x12context
 from pyx12.test.x12testdata import datafiles
 
 NONE = '<none>'
+
+# ------------------------------------------------------------------ termination guard
+# The real code runs under a CPU-time budget per history (ITIMER_PROF of the worker process: children such as TLC do not
+# count) and an address-space allowance: a history on which pyx12 hangs or explodes ends the history with NoTermination,
+# which the check reports as a violation (clause no_termination) - the check itself always terminates.
+# Histories that each stay below the budget but get slower and slower (state carried from history to history inside the
+# library) are bounded by a CPU budget per task (one TLC part / one batch of recorded histories): TASK_CPU, set by c10.run.
+HIST_CPU = float(os.environ.get('C10_HIST_CPU', '10'))       # seconds of CPU per history (ordinary histories need < 0.5)
+TASK_CPU = float(os.environ.get('C10_TASK_CPU', '600'))      # seconds of CPU for the real-code part of one task
+MEM_EXTRA = int(os.environ.get('C10_MEM_MB', '1536')) << 20  # address space the histories may add to a process (since its first history)
+MEM_MIN = 512 << 20     # ... but every history may add at least this much to what the process holds when it starts
+POISON_AFTER = 2        # after that many histories without end in one worker process, it executes no further real code
+
+
+class NoTermination(BaseException):
+    """raised from the SIGPROF handler; not an Exception, so neither pyx12 nor the harness' `except Exception` swallows it"""
+
+
+def _on_prof(signum, frame):
+    raise NoTermination('cpu budget of %g s used up' % HIST_CPU)
+
+
+def _vm_bytes():
+    try:
+        with open('/proc/self/statm') as f:
+            return int(f.read().split()[0]) * os.sysconf('SC_PAGE_SIZE')
+    except Exception:
+        return 1 << 30
+
+
+class Budget(object):
+    """with Budget(): ... ; the timer keeps firing every second once the budget is used up, until disarmed"""
+    poisoned = 0          # histories of this process that did not end
+    task_spent = 0.0      # CPU seconds the histories of the current task have used
+    task_reported = False
+    base = None           # address space of the process when its first history started
+
+    def __enter__(self):
+        self.old = resource.getrlimit(resource.RLIMIT_AS)
+        vm = _vm_bytes()
+        if Budget.base is None:
+            Budget.base = vm
+        lim = max(Budget.base + MEM_EXTRA, vm + MEM_MIN)
+        if self.old[1] != resource.RLIM_INFINITY:
+            lim = min(lim, self.old[1])
+        try:
+            resource.setrlimit(resource.RLIMIT_AS, (lim, self.old[1]))
+        except (ValueError, OSError):
+            pass
+        t = os.times()
+        self.c0 = t[0] + t[1]
+        signal.signal(signal.SIGPROF, _on_prof)
+        signal.setitimer(signal.ITIMER_PROF, HIST_CPU, 1.0)
+        return self
+
+    def __exit__(self, et, ev, tb):
+        signal.setitimer(signal.ITIMER_PROF, 0, 0)
+        t = os.times()
+        self.cpu = t[0] + t[1] - self.c0
+        Budget.task_spent += self.cpu
+        try:
+            resource.setrlimit(resource.RLIMIT_AS, self.old)
+        except (ValueError, OSError):
+            pass
+        if et is not None and issubclass(et, (NoTermination, MemoryError)):
+            Budget.poisoned += 1
+        return False
+
+
+def start_task():
+    Budget.task_spent = 0.0
+    Budget.task_reported = False
+
+
+def task_over():
+    """the histories of the current task have used up TASK_CPU: the rest of the task is not executed"""
+    return Budget.task_spent > TASK_CPU
+
+
+def give_up():
+    Budget.poisoned = max(Budget.poisoned, POISON_AFTER)
+
+
+def gave_up():
+    """this worker process has seen POISON_AFTER histories without end: the library state it carries (e.g. an exploded
+    shared list) makes every further history as slow; the remaining ones are counted as not executed"""
+    return Budget.poisoned >= POISON_AFTER
+
+
+def why(e):
+    return str(e) if isinstance(e, NoTermination) else 'address space allowance (%d MB per process) exhausted (MemoryError)' % (MEM_EXTRA >> 20)
+
 DEAD = {'k': 'dead', 'mn': 0, 'par': 0, 'ch': [], 'eles': []}
 
 HDR_837 = """ISA*00*          *00*          *ZZ*AAAAAAAA       *ZZ*BBBBBBBBB      *041105*1526*U*00401*000001168*1*P*:~
@@ -284,6 +378,8 @@ class World(object):
             if n['k'] != 'dead' and n['par'] == 0:
                 try:
                     segs = [s['segment'].format() for s in self.objs[i].iterate_segments()]
+                except MemoryError:
+                    raise
                 except Exception as e:
                     segs = ['EXC:' + type(e).__name__]
                 out.append({'root': i, 'segs': segs})
@@ -351,7 +447,7 @@ class World(object):
                 ret['n'] = self.reg_tree(r)
             else:
                 raise vlib.MachineryError('unknown op %s' % op)
-        except vlib.MachineryError:
+        except (vlib.MachineryError, MemoryError):
             raise
         except Exception as e:
             ret['x'] = type(e).__name__
